@@ -273,14 +273,20 @@ def r2_no_pending_reply(chk, fx, b, fn):
         left = []
         for l in sorted(holders & init_in[bi]):
             ty = b.local_ty(l)
-            if "IntoIter<" in ty:
-                # exhausted on every path here?
-                lps = []
-                for lp in b.for_loops():
-                    recv = b.backward_slice(F.op_base(lp["next"].args[0]), through_call=lambda x: False)[1]
-                    if l in recv:
-                        lps.append(lp)
-                if lps and all(b.edge_dominates(lp["switch"], lp["none"], bi) for lp in lps):
+            if "IntoIter<" in ty or "Iter<" in ty or "Drain<" in ty:
+                # exhausted on every path here?  (`for`, `while let Some(x) = it.next()`, `loop { match it.next() .. }`: any next() on it
+                # whose None outcome dominates this point)
+                exhausted = False
+                for c in b.calls():
+                    if not c.is_fn("Iterator::next") or c.target is None:
+                        continue
+                    recv = b.backward_slice(F.op_base(c.args[0]), through_call=lambda x: False)[1]
+                    if l not in recv:
+                        continue
+                    none_t, some_t = b.switch_on(c.dest["l"], c.target)
+                    if none_t is not None and b.edge_dominates(b._switch_block_of(c), none_t, bi):
+                        exhausted = True
+                if exhausted:
                     continue
             left.append((b.locals[l].get("name") or "_%d" % l, T.short(ty.split("<")[0], 1)))
         chk.instance("C04/R2", "no reply future of a sent load is left un-awaited when load_config returns Ok (still held: %s)" % (left or "none"), b.name,
@@ -381,7 +387,30 @@ def r3_client_methods(chk, fx):
 
 
 # ---------------------------------------------------------------------------------------------
+def _open_db_success(b, bi):
+    """Inside open_db's coroutine: block bi is reached only after the request was sent and its reply `?`-checked."""
+    rpc = [c for c in b.calls() if c.is_fn("Session::<T>::rpc") and not c.macro]
+    if not rpc:
+        return False
+    e1 = _ok_edge(b, rpc[0])
+    if e1 is None:
+        return False
+    pay = b.forward_taint([e1[0].dest["l"]], through_call=lambda c: c.is_fn(*PT_RUN))
+    e2 = [(c, cont) for (c, cont, brk) in b.try_branches() if F.op_base(c.args[0]) in pay and c.bb != e1[0].bb and b.dominates(e1[1], c.bb)]
+    return bool(e2) and all(b.edge_dominates(b._switch_block_of(c), cont, bi) for c, cont in e2) and _ok_dom(b, e1, rpc[0], bi)
+
+
+def _is_client_ty(ty, state=None):
+    ty = ty.strip()
+    if not ty.startswith(AGENT + "::netconf::Client<"):
+        return False
+    return state is None or ty.endswith("netconf::%s>" % state)
+
+
 def r4_typestate(chk, fx):
+    """A Client<_, Open> value comes into existence only in open_db, after the <open-configuration> reply was `?`-checked.  Introduction
+    sites = struct literals whose type is Client<_,Open>, and calls that return a Client<_,Open> by value without having been given
+    one (a generic state-changing helper instantiated to Open counts, whatever it is called)."""
     n = 0
     for name, b in sorted(fx.mir.items()):
         if b.crate != AGENT:
@@ -394,27 +423,36 @@ def r4_typestate(chk, fx):
                 chk.instance("C04/R4", "Client aggregate assigned through a projection", name, loc, holds=False,
                              key="C04/R4 %s client-built-in-place" % short_fn(name))
                 continue
-            if ty.endswith("netconf::Closed>"):
+            if _is_client_ty(ty, "Closed"):
                 chk.instance("C04/R4", "Client<_,Closed> built", name, loc, holds=True)
-            elif ty.endswith("netconf::Open>"):
-                ok = "netconf::Closed>::open_db::" in name
-                if ok:
-                    rpc = [c for c in b.calls() if c.is_fn("Session::<T>::rpc") and not c.macro]
-                    ok = False
-                    if rpc:
-                        e1 = _ok_edge(b, rpc[0])
-                        if e1 is not None:
-                            pay = b.forward_taint([e1[0].dest["l"]], through_call=lambda c: c.is_fn(*PT_RUN))
-                            e2 = [(c, cont) for (c, cont, brk) in b.try_branches()
-                                  if F.op_base(c.args[0]) in pay and c.bb != e1[0].bb and b.dominates(e1[1], c.bb)]
-                            ok = bool(e2) and all(b.edge_dominates(b._switch_block_of(c), cont, bi) for c, cont in e2) \
-                                and _ok_dom(b, e1, rpc[0], bi)
+            elif _is_client_ty(ty, "Open"):
+                ok = "netconf::Closed>::open_db::" in name and _open_db_success(b, bi)
                 chk.instance("C04/R4", "Client<_,Open> built only in open_db after both `?`", name, loc, holds=ok,
                              key="C04/R4 %s builds-Client-Open" % short_fn(name))
             else:
-                chk.instance("C04/R4", "Client with database state of unrecognised type %s" % ty, name, loc, holds=False,
-                             key="C04/R4 %s builds-Client-unknown-state" % short_fn(name))
-    chk.floor("C04/R4 Client aggregates", n, 4)
+                # generic database state (a private state-changing helper): decided at its call sites below
+                it = None
+                try:
+                    it = fx.fn_item(name)
+                except F.AnchorLost:
+                    pass
+                private = it is not None and it.get("vis", "").startswith("Restricted")
+                chk.instance("C04/R4", "Client with a generic database state is built only in a private helper (%s); its instantiations are checked at the call sites"
+                             % short_fn(name), name, loc, holds=private, key="C04/R4 %s builds-Client-unknown-state" % short_fn(name))
+        for c in b.calls():
+            if c.macro or c.dest is None or c.dest.get("p"):
+                continue
+            dty = b.local_ty(c.dest["l"])
+            if not _is_client_ty(dty, "Open"):
+                continue
+            given = any(_is_client_ty(b.local_ty(F.op_base(a)).lstrip("&").replace("mut ", "").strip(), "Open") for a in c.args if F.op_base(a) is not None)
+            if given:
+                continue
+            n += 1
+            ok = "netconf::Closed>::open_db::" in name and _open_db_success(b, c.bb)
+            chk.instance("C04/R4", "%s turns a client into Client<_,Open> only in open_db after both `?`" % T.short(c.name(), 2), name, c.loc(), holds=ok,
+                         key="C04/R4 %s builds-Client-Open" % short_fn(name))
+    chk.floor("C04/R4 Client construction sites", n, 3)
     for m in ("load_config", "commit_config", "close_db", "fetch_config"):
         its = [it for it in fx.item_list if it["kind"] == "AssocFn" and it["def"].endswith("::" + m)
                and it["def"].startswith(AGENT + "::netconf::Client")]
@@ -435,26 +473,31 @@ def r4_typestate(chk, fx):
 
 # ---------------------------------------------------------------------------------------------
 def r5_handle_task(chk, fx):
-    t = fx.thir_body(AGENT + "::task::handle_task::{closure#0}")
-    chk.analysed(t["def"])
-    body = T.user_body(t)
-    ms = [m for m in T.find(body, "Match") if T.peel(m["scrut"]).get("k") == "Await"]
-    if len(ms) != 1:
-        raise F.AnchorLost("handle_task: expected one match on handle.await, found %d" % len(ms))
-    m = ms[0]
-    rows = []
-    for a in m["arms"]:
-        p = T.pat_str(a["pat"])
-        oks = [x for x in T.find(a["body"], "Adt") if x["adt"].endswith("result::Result") and x["variant"] == "Ok"]
-        rows.append((p, T.expr_str(a["body"])))
-        if p.startswith("Result::Ok(Result::Ok("):
-            chk.instance("C04/R5", "handle_task: %s => %s" % (p, T.expr_str(a["body"])), t["def"], loc_of(a.get("sp")),
-                         holds=True)
-        else:
-            chk.instance("C04/R5", "handle_task: %s must not yield Ok" % p, t["def"], loc_of(a.get("sp")), holds=not oks,
-                         key="C04/R5 handle_task arm %s yields Ok" % p)
-    chk.floor("C04/R5 handle_task arms", len(rows), 3)
-    chk.extra["handle_task_table"] = rows
+    """handle_task maps a failed or panicked sub-task to Err: decided on the abstract result of awaiting the JoinHandle."""
+    from vlib import absint as A
+    hn = AGENT + "::task::handle_task::{closure#0}"
+    t = fx.thir_body(hn)
+    chk.analysed(hn)
+    paths = A.Interp(fx, crates=(AGENT,)).explore(hn)
+    seen = {}
+    for p in paths:
+        outer = [v for k, v in p.assume.items() if k.startswith("variant:") and k.endswith(".await")]
+        inner = [v for k, v in p.assume.items() if k.startswith("variant:") and k.endswith(".await→Ok.0")]
+        if outer == ["Ok"] and not inner and p.ret is not None and p.ret[0] == "payload" and A.vstr(p.ret).endswith(".await→Ok.0"):
+            # the task's own Result is handed through unchanged (modulo error context): Ok stays Ok, Err stays Err
+            seen["joined-Ok"] = A.ok(("payload", p.ret, "Ok", "0"))
+            seen["joined-Err"] = A.err(("payload", p.ret, "Err", "0"))
+            continue
+        case = ("joined-%s" % inner[0]) if outer == ["Ok"] and inner else ("panicked" if outer == ["Err"] else "?")
+        seen[case] = p.ret
+    want = {"joined-Ok": "Ok", "joined-Err": "Err", "panicked": "Err"}
+    for case, w in want.items():
+        r = seen.get(case)
+        ok = r is not None and A.is_res(r) and r[2] == w and (w == "Err" or A.vstr(r).endswith(".await→Ok.0→Ok.0)"))
+        chk.instance("C04/R5", "handle_task: %s => %s (%s)" % (case, w, A.vstr(r)[:70] if r else None), hn, loc_of(t.get("sp")), holds=ok,
+                     key="C04/R5 handle_task %s" % case)
+    chk.instance("C04/R5", "handle_task has no other outcome", hn, None, holds=set(seen) == set(want), key="C04/R5 handle_task outcomes %s" % sorted(seen))
+
 
 
 # ---------------------------------------------------------------------------------------------
